@@ -13,18 +13,26 @@ import (
 	"go.opentelemetry.io/collector/confmap"
 	"go.opentelemetry.io/collector/connector"
 	"go.opentelemetry.io/collector/connector/forwardconnector"
+	"go.opentelemetry.io/collector/connector/xconnector"
 	"go.opentelemetry.io/collector/consumer"
+	"go.opentelemetry.io/collector/consumer/xconsumer"
 	"go.opentelemetry.io/collector/exporter"
+	"go.opentelemetry.io/collector/exporter/xexporter"
 	"go.opentelemetry.io/collector/extension"
 	"go.opentelemetry.io/collector/extension/extensioncapabilities"
+	"go.opentelemetry.io/collector/featuregate"
 	"go.opentelemetry.io/collector/internal/sharedcomponent"
 	"go.opentelemetry.io/collector/pdata/pcommon"
 	"go.opentelemetry.io/collector/pdata/plog"
 	"go.opentelemetry.io/collector/pdata/pmetric"
+	"go.opentelemetry.io/collector/pdata/pprofile"
 	"go.opentelemetry.io/collector/pdata/ptrace"
 	"go.opentelemetry.io/collector/pipeline"
+	"go.opentelemetry.io/collector/pipeline/xpipeline"
 	"go.opentelemetry.io/collector/processor"
+	"go.opentelemetry.io/collector/processor/xprocessor"
 	"go.opentelemetry.io/collector/receiver"
+	"go.opentelemetry.io/collector/receiver/xreceiver"
 	"go.opentelemetry.io/collector/service/internal/graph"
 	"verif.local/simkit"
 )
@@ -34,12 +42,25 @@ import (
 // one global event log; behaviour (fail, park, mutate) comes from a per-component plan owned by the simulation.
 
 const (
-	sigLogs    = "logs"
-	sigTraces  = "traces"
-	sigMetrics = "metrics"
+	sigLogs     = "logs"
+	sigTraces   = "traces"
+	sigMetrics  = "metrics"
+	sigProfiles = "profiles"
 )
 
 var signals = []string{sigLogs, sigTraces, sigMetrics}
+
+// allSignals adds the profiles signal (behind the service.profilesSupport gate, which the kit enables): used by the
+// generated topologies and the fan-out harness; the harnesses of components without profiles support keep `signals`.
+var allSignals = []string{sigLogs, sigTraces, sigMetrics, sigProfiles}
+
+func init() {
+	if err := featuregate.GlobalRegistry().Set("service.profilesSupport", true); err != nil {
+		panic(err)
+	}
+}
+
+func drawSignal(tp *simkit.Tape) string { return allSignals[tp.Weighted(3, 3, 3, 2)] }
 
 func pipeSignal(s string) pipeline.Signal {
 	switch s {
@@ -47,6 +68,8 @@ func pipeSignal(s string) pipeline.Signal {
 		return pipeline.SignalLogs
 	case sigTraces:
 		return pipeline.SignalTraces
+	case sigProfiles:
+		return xpipeline.SignalProfiles
 	}
 	return pipeline.SignalMetrics
 }
@@ -254,6 +277,13 @@ func forEachItem(sig string, payload any, fn func(attrs pcommon.Map)) {
 				}
 			}
 		}
+	case sigProfiles:
+		// profiles carry their attributes through a dictionary; the kit's items are whole resources (one profile with
+		// one sample each), identified by resource attributes
+		pf := payload.(pprofile.Profiles)
+		for i := 0; i < pf.ResourceProfiles().Len(); i++ {
+			fn(pf.ResourceProfiles().At(i).Resource().Attributes())
+		}
 	default:
 		md := payload.(pmetric.Metrics)
 		for i := 0; i < md.ResourceMetrics().Len(); i++ {
@@ -310,6 +340,15 @@ func newPayload(sig string, items []item) any {
 			a.PutStr("trail", it.Trail)
 		}
 		return td
+	case sigProfiles:
+		pf := pprofile.NewProfiles()
+		for _, it := range items {
+			rp := pf.ResourceProfiles().AppendEmpty()
+			rp.Resource().Attributes().PutStr("vid", it.ID)
+			rp.Resource().Attributes().PutStr("trail", it.Trail)
+			rp.ScopeProfiles().AppendEmpty().Profiles().AppendEmpty().Sample().AppendEmpty()
+		}
+		return pf
 	default:
 		md := pmetric.NewMetrics()
 		g := md.ResourceMetrics().AppendEmpty().ScopeMetrics().AppendEmpty().Metrics().AppendEmpty()
@@ -340,6 +379,7 @@ type anyConsumer struct {
 	l   consumer.Logs
 	t   consumer.Traces
 	m   consumer.Metrics
+	p   xconsumer.Profiles
 }
 
 func (c anyConsumer) consume(ctx context.Context, payload any) error {
@@ -348,6 +388,8 @@ func (c anyConsumer) consume(ctx context.Context, payload any) error {
 		return c.l.ConsumeLogs(ctx, payload.(plog.Logs))
 	case sigTraces:
 		return c.t.ConsumeTraces(ctx, payload.(ptrace.Traces))
+	case sigProfiles:
+		return c.p.ConsumeProfiles(ctx, payload.(pprofile.Profiles))
 	}
 	return c.m.ConsumeMetrics(ctx, payload.(pmetric.Metrics))
 }
@@ -358,6 +400,8 @@ func (c anyConsumer) caps() consumer.Capabilities {
 		return c.l.Capabilities()
 	case sigTraces:
 		return c.t.Capabilities()
+	case sigProfiles:
+		return c.p.Capabilities()
 	}
 	return c.m.Capabilities()
 }
@@ -385,14 +429,17 @@ type stubShared struct {
 func (w *World) receiverFactories() map[component.Type]receiver.Factory {
 	mk := func(typ string, shared bool) receiver.Factory {
 		t := component.MustNewType(typ)
-		return receiver.NewFactory(t, func() component.Config { return &stubCfg{} },
-			receiver.WithLogs(func(_ context.Context, set receiver.Settings, _ component.Config, next consumer.Logs) (receiver.Logs, error) {
+		return xreceiver.NewFactory(t, func() component.Config { return &stubCfg{} },
+			xreceiver.WithProfiles(func(_ context.Context, set receiver.Settings, _ component.Config, next xconsumer.Profiles) (xreceiver.Profiles, error) {
+				return w.newReceiver(set, sigProfiles, anyConsumer{sig: sigProfiles, p: next}, shared)
+			}, component.StabilityLevelStable),
+			xreceiver.WithLogs(func(_ context.Context, set receiver.Settings, _ component.Config, next consumer.Logs) (receiver.Logs, error) {
 				return w.newReceiver(set, sigLogs, anyConsumer{sig: sigLogs, l: next}, shared)
 			}, component.StabilityLevelStable),
-			receiver.WithTraces(func(_ context.Context, set receiver.Settings, _ component.Config, next consumer.Traces) (receiver.Traces, error) {
+			xreceiver.WithTraces(func(_ context.Context, set receiver.Settings, _ component.Config, next consumer.Traces) (receiver.Traces, error) {
 				return w.newReceiver(set, sigTraces, anyConsumer{sig: sigTraces, t: next}, shared)
 			}, component.StabilityLevelStable),
-			receiver.WithMetrics(func(_ context.Context, set receiver.Settings, _ component.Config, next consumer.Metrics) (receiver.Metrics, error) {
+			xreceiver.WithMetrics(func(_ context.Context, set receiver.Settings, _ component.Config, next consumer.Metrics) (receiver.Metrics, error) {
 				return w.newReceiver(set, sigMetrics, anyConsumer{sig: sigMetrics, m: next}, shared)
 			}, component.StabilityLevelStable),
 		)
@@ -461,6 +508,9 @@ func (p *stubProcessor) ConsumeTraces(ctx context.Context, td ptrace.Traces) err
 func (p *stubProcessor) ConsumeMetrics(ctx context.Context, md pmetric.Metrics) error {
 	return p.do(ctx, md)
 }
+func (p *stubProcessor) ConsumeProfiles(ctx context.Context, pf pprofile.Profiles) error {
+	return p.do(ctx, pf)
+}
 
 func (w *World) processorFactories() map[component.Type]processor.Factory {
 	mk := func(typ string, mutates bool) processor.Factory {
@@ -469,14 +519,17 @@ func (w *World) processorFactories() map[component.Type]processor.Factory {
 			key := fmt.Sprintf("processor:%s:%s#%d", set.ID.String(), next.sig, w.nextProcOrdinal(set.ID.String(), next.sig))
 			return &stubProcessor{stubBase: w.newBase(key), next: next, mutates: mutates, tag: set.ID.String()}
 		}
-		return processor.NewFactory(component.MustNewType(typ), func() component.Config { return &stubCfg{} },
-			processor.WithLogs(func(_ context.Context, set processor.Settings, _ component.Config, next consumer.Logs) (processor.Logs, error) {
+		return xprocessor.NewFactory(component.MustNewType(typ), func() component.Config { return &stubCfg{} },
+			xprocessor.WithProfiles(func(_ context.Context, set processor.Settings, _ component.Config, next xconsumer.Profiles) (xprocessor.Profiles, error) {
+				return newP(set, anyConsumer{sig: sigProfiles, p: next}), nil
+			}, component.StabilityLevelStable),
+			xprocessor.WithLogs(func(_ context.Context, set processor.Settings, _ component.Config, next consumer.Logs) (processor.Logs, error) {
 				return newP(set, anyConsumer{sig: sigLogs, l: next}), nil
 			}, component.StabilityLevelStable),
-			processor.WithTraces(func(_ context.Context, set processor.Settings, _ component.Config, next consumer.Traces) (processor.Traces, error) {
+			xprocessor.WithTraces(func(_ context.Context, set processor.Settings, _ component.Config, next consumer.Traces) (processor.Traces, error) {
 				return newP(set, anyConsumer{sig: sigTraces, t: next}), nil
 			}, component.StabilityLevelStable),
-			processor.WithMetrics(func(_ context.Context, set processor.Settings, _ component.Config, next consumer.Metrics) (processor.Metrics, error) {
+			xprocessor.WithMetrics(func(_ context.Context, set processor.Settings, _ component.Config, next consumer.Metrics) (processor.Metrics, error) {
 				return newP(set, anyConsumer{sig: sigMetrics, m: next}), nil
 			}, component.StabilityLevelStable),
 		)
@@ -534,20 +587,26 @@ func (e *stubExporter) ConsumeTraces(ctx context.Context, td ptrace.Traces) erro
 func (e *stubExporter) ConsumeMetrics(ctx context.Context, md pmetric.Metrics) error {
 	return e.do(ctx, md)
 }
+func (e *stubExporter) ConsumeProfiles(ctx context.Context, pf pprofile.Profiles) error {
+	return e.do(ctx, pf)
+}
 
 func (w *World) exporterFactories() map[component.Type]exporter.Factory {
 	mk := func(typ string, mutates bool) exporter.Factory {
 		newE := func(set exporter.Settings, sig string) *stubExporter {
 			return &stubExporter{stubBase: w.newBase("exporter:" + set.ID.String() + ":" + sig), sig: sig, mutates: mutates}
 		}
-		return exporter.NewFactory(component.MustNewType(typ), func() component.Config { return &stubCfg{} },
-			exporter.WithLogs(func(_ context.Context, set exporter.Settings, _ component.Config) (exporter.Logs, error) {
+		return xexporter.NewFactory(component.MustNewType(typ), func() component.Config { return &stubCfg{} },
+			xexporter.WithProfiles(func(_ context.Context, set exporter.Settings, _ component.Config) (xexporter.Profiles, error) {
+				return newE(set, sigProfiles), nil
+			}, component.StabilityLevelStable),
+			xexporter.WithLogs(func(_ context.Context, set exporter.Settings, _ component.Config) (exporter.Logs, error) {
 				return newE(set, sigLogs), nil
 			}, component.StabilityLevelStable),
-			exporter.WithTraces(func(_ context.Context, set exporter.Settings, _ component.Config) (exporter.Traces, error) {
+			xexporter.WithTraces(func(_ context.Context, set exporter.Settings, _ component.Config) (exporter.Traces, error) {
 				return newE(set, sigTraces), nil
 			}, component.StabilityLevelStable),
-			exporter.WithMetrics(func(_ context.Context, set exporter.Settings, _ component.Config) (exporter.Metrics, error) {
+			xexporter.WithMetrics(func(_ context.Context, set exporter.Settings, _ component.Config) (exporter.Metrics, error) {
 				return newE(set, sigMetrics), nil
 			}, component.StabilityLevelStable),
 		)
@@ -594,12 +653,18 @@ func (c *stubConnector) ConsumeTraces(ctx context.Context, td ptrace.Traces) err
 func (c *stubConnector) ConsumeMetrics(ctx context.Context, md pmetric.Metrics) error {
 	return c.do(ctx, md)
 }
+func (c *stubConnector) ConsumeProfiles(ctx context.Context, pf pprofile.Profiles) error {
+	return c.do(ctx, pf)
+}
 
 // connSupports says which (from,to) pairs a connector type implements.
 func connSupports(typ, from, to string) bool {
 	switch typ {
-	case "fwd", "forward":
+	case "fwd":
 		return from == to
+	case "forward":
+		// the real forward connector has no profiles support
+		return from == to && from != sigProfiles
 	case "conv":
 		return true
 	case "l2m":
@@ -614,54 +679,89 @@ func (w *World) connectorFactories() map[component.Type]connector.Factory {
 			key := fmt.Sprintf("connector:%s:%s->%s", set.ID.String(), from, next.sig)
 			return &stubConnector{stubBase: w.newBase(key), from: from, to: next.sig, next: next, tag: set.ID.String()}
 		}
-		var opts []connector.FactoryOption
+		var opts []xconnector.FactoryOption
 		st := component.StabilityLevelStable
+		if connSupports(typ, sigProfiles, sigProfiles) {
+			opts = append(opts, xconnector.WithProfilesToProfiles(func(_ context.Context, set connector.Settings, _ component.Config, next xconsumer.Profiles) (xconnector.Profiles, error) {
+				return newC(set, sigProfiles, anyConsumer{sig: sigProfiles, p: next}), nil
+			}, st))
+		}
+		if connSupports(typ, sigProfiles, sigLogs) {
+			opts = append(opts, xconnector.WithProfilesToLogs(func(_ context.Context, set connector.Settings, _ component.Config, next consumer.Logs) (xconnector.Profiles, error) {
+				return newC(set, sigProfiles, anyConsumer{sig: sigLogs, l: next}), nil
+			}, st))
+		}
+		if connSupports(typ, sigProfiles, sigTraces) {
+			opts = append(opts, xconnector.WithProfilesToTraces(func(_ context.Context, set connector.Settings, _ component.Config, next consumer.Traces) (xconnector.Profiles, error) {
+				return newC(set, sigProfiles, anyConsumer{sig: sigTraces, t: next}), nil
+			}, st))
+		}
+		if connSupports(typ, sigProfiles, sigMetrics) {
+			opts = append(opts, xconnector.WithProfilesToMetrics(func(_ context.Context, set connector.Settings, _ component.Config, next consumer.Metrics) (xconnector.Profiles, error) {
+				return newC(set, sigProfiles, anyConsumer{sig: sigMetrics, m: next}), nil
+			}, st))
+		}
+		if connSupports(typ, sigLogs, sigProfiles) {
+			opts = append(opts, xconnector.WithLogsToProfiles(func(_ context.Context, set connector.Settings, _ component.Config, next xconsumer.Profiles) (connector.Logs, error) {
+				return newC(set, sigLogs, anyConsumer{sig: sigProfiles, p: next}), nil
+			}, st))
+		}
+		if connSupports(typ, sigTraces, sigProfiles) {
+			opts = append(opts, xconnector.WithTracesToProfiles(func(_ context.Context, set connector.Settings, _ component.Config, next xconsumer.Profiles) (connector.Traces, error) {
+				return newC(set, sigTraces, anyConsumer{sig: sigProfiles, p: next}), nil
+			}, st))
+		}
+		if connSupports(typ, sigMetrics, sigProfiles) {
+			opts = append(opts, xconnector.WithMetricsToProfiles(func(_ context.Context, set connector.Settings, _ component.Config, next xconsumer.Profiles) (connector.Metrics, error) {
+				return newC(set, sigMetrics, anyConsumer{sig: sigProfiles, p: next}), nil
+			}, st))
+		}
 		if connSupports(typ, sigLogs, sigLogs) {
-			opts = append(opts, connector.WithLogsToLogs(func(_ context.Context, set connector.Settings, _ component.Config, next consumer.Logs) (connector.Logs, error) {
+			opts = append(opts, xconnector.WithLogsToLogs(func(_ context.Context, set connector.Settings, _ component.Config, next consumer.Logs) (connector.Logs, error) {
 				return newC(set, sigLogs, anyConsumer{sig: sigLogs, l: next}), nil
 			}, st))
 		}
 		if connSupports(typ, sigLogs, sigTraces) {
-			opts = append(opts, connector.WithLogsToTraces(func(_ context.Context, set connector.Settings, _ component.Config, next consumer.Traces) (connector.Logs, error) {
+			opts = append(opts, xconnector.WithLogsToTraces(func(_ context.Context, set connector.Settings, _ component.Config, next consumer.Traces) (connector.Logs, error) {
 				return newC(set, sigLogs, anyConsumer{sig: sigTraces, t: next}), nil
 			}, st))
 		}
 		if connSupports(typ, sigLogs, sigMetrics) {
-			opts = append(opts, connector.WithLogsToMetrics(func(_ context.Context, set connector.Settings, _ component.Config, next consumer.Metrics) (connector.Logs, error) {
+			opts = append(opts, xconnector.WithLogsToMetrics(func(_ context.Context, set connector.Settings, _ component.Config, next consumer.Metrics) (connector.Logs, error) {
 				return newC(set, sigLogs, anyConsumer{sig: sigMetrics, m: next}), nil
 			}, st))
 		}
 		if connSupports(typ, sigTraces, sigLogs) {
-			opts = append(opts, connector.WithTracesToLogs(func(_ context.Context, set connector.Settings, _ component.Config, next consumer.Logs) (connector.Traces, error) {
+			opts = append(opts, xconnector.WithTracesToLogs(func(_ context.Context, set connector.Settings, _ component.Config, next consumer.Logs) (connector.Traces, error) {
 				return newC(set, sigTraces, anyConsumer{sig: sigLogs, l: next}), nil
 			}, st))
 		}
 		if connSupports(typ, sigTraces, sigTraces) {
-			opts = append(opts, connector.WithTracesToTraces(func(_ context.Context, set connector.Settings, _ component.Config, next consumer.Traces) (connector.Traces, error) {
+			opts = append(opts, xconnector.WithTracesToTraces(func(_ context.Context, set connector.Settings, _ component.Config, next consumer.Traces) (connector.Traces, error) {
 				return newC(set, sigTraces, anyConsumer{sig: sigTraces, t: next}), nil
 			}, st))
 		}
 		if connSupports(typ, sigTraces, sigMetrics) {
-			opts = append(opts, connector.WithTracesToMetrics(func(_ context.Context, set connector.Settings, _ component.Config, next consumer.Metrics) (connector.Traces, error) {
+			opts = append(opts, xconnector.WithTracesToMetrics(func(_ context.Context, set connector.Settings, _ component.Config, next consumer.Metrics) (connector.Traces, error) {
 				return newC(set, sigTraces, anyConsumer{sig: sigMetrics, m: next}), nil
 			}, st))
 		}
 		if connSupports(typ, sigMetrics, sigLogs) {
-			opts = append(opts, connector.WithMetricsToLogs(func(_ context.Context, set connector.Settings, _ component.Config, next consumer.Logs) (connector.Metrics, error) {
+			opts = append(opts, xconnector.WithMetricsToLogs(func(_ context.Context, set connector.Settings, _ component.Config, next consumer.Logs) (connector.Metrics, error) {
 				return newC(set, sigMetrics, anyConsumer{sig: sigLogs, l: next}), nil
 			}, st))
 		}
 		if connSupports(typ, sigMetrics, sigTraces) {
-			opts = append(opts, connector.WithMetricsToTraces(func(_ context.Context, set connector.Settings, _ component.Config, next consumer.Traces) (connector.Metrics, error) {
+			opts = append(opts, xconnector.WithMetricsToTraces(func(_ context.Context, set connector.Settings, _ component.Config, next consumer.Traces) (connector.Metrics, error) {
 				return newC(set, sigMetrics, anyConsumer{sig: sigTraces, t: next}), nil
 			}, st))
 		}
 		if connSupports(typ, sigMetrics, sigMetrics) {
-			opts = append(opts, connector.WithMetricsToMetrics(func(_ context.Context, set connector.Settings, _ component.Config, next consumer.Metrics) (connector.Metrics, error) {
+			opts = append(opts, xconnector.WithMetricsToMetrics(func(_ context.Context, set connector.Settings, _ component.Config, next consumer.Metrics) (connector.Metrics, error) {
 				return newC(set, sigMetrics, anyConsumer{sig: sigMetrics, m: next}), nil
 			}, st))
 		}
-		return connector.NewFactory(component.MustNewType(typ), func() component.Config { return &stubCfg{} }, opts...)
+		return xconnector.NewFactory(component.MustNewType(typ), func() component.Config { return &stubCfg{} }, opts...)
 	}
 	return map[component.Type]connector.Factory{
 		// the repository's real forward connector: it passes the SAME payload object on to the next pipelines
